@@ -1,6 +1,6 @@
 """Developer driver: python dev.py <target-substring> [prop]"""
 import sys, time
-sys.path.insert(0, "/tmp/vdev")
+sys.path.insert(0, "/verif")
 from pyvc import contracts as C, engine as E, backend
 C.load_all()
 pat = sys.argv[1]
